@@ -1,9 +1,9 @@
 SPECIFICATION Spec
 CONSTANTS
   Accounts <- AllAccounts
-  Thorough = FALSE
-VIEW RoleView
+  Thorough = TRUE
+
 INVARIANTS HistoryOK ModuleAccountEmpty ThresholdInv
-PROPERTIES SpecSatisfiesLenses StepwiseIsRun RoleLifecycle
+PROPERTIES SpecSatisfiesLenses StepwiseIsRun DepositAcceptIff RollbackExact DepositAllOrNothing OutboundContent
 ACTION_CONSTRAINT EmitEdge
 CHECK_DEADLOCK FALSE
